@@ -163,11 +163,25 @@ Definition run_pair {A} (solve : bool -> outcome A) : outcome (string * string) 
   | Crash w => Crash w
   | OutOfFuel => OutOfFuel
   end.
+(* StochasticGame.count_transitions: run_games calls it for every entry BEFORE the try block;
+   [len] of a value that has none (None, bool, int, float) is a TypeError that nothing catches *)
+Fixpoint count_transitions (l : list pyval) : outcome nat :=
+  match l with
+  | [] => Ok 0
+  | v :: l' =>
+    match py_len v with
+    | None => Crash exc_type_error
+    | Some k => do c <- count_transitions l'; Ok (k + c)
+    end
+  end.
+Definition run_entry {A} (solve : bool -> outcome A) (d : desc) : outcome (string * string) :=
+  do _ <- count_transitions (d_trans d); run_pair solve.
 (* the whole dictionary: an uncaught exception aborts the batch, a ValueError does not *)
-Fixpoint run_batch {A} (games : list (bool -> outcome A)) : outcome (list (string * string)) :=
-  match games with
+Fixpoint run_batch {A} (solve : desc -> bool -> outcome A) (ds : list desc)
+  : outcome (list (string * string)) :=
+  match ds with
   | [] => Ok []
-  | g :: gs => do r <- run_pair g; do rs <- run_batch gs; Ok (r :: rs)
+  | d :: ds' => do r <- run_entry (solve d) d; do rs <- run_batch solve ds'; Ok (r :: rs)
   end.
 
 (** ** harness side: what the implementation did, and the comparison *)
@@ -186,13 +200,20 @@ Definition vidx_where (l : list (desc * vout)) : list nat :=
   map fst (filter (fun ic => negb (vcmp (validate (fst (snd ic))) (snd (snd ic))))
                   (combine (seq 0 (length l)) l)).
 
-(* run_games cases: the two messages recorded for a description (pruned, unpruned) *)
-Definition bidx_where (l : list (desc * (string * string))) : list nat :=
+(* run_games cases: what happened to one dictionary entry *)
+Inductive bout :=
+| BMsgs (pruned unpruned : string)    (* the two recorded messages *)
+| BExc (cls : string).                (* run_games itself raised *)
+Definition bcmp (o : outcome (string * string)) (x : bout) : bool :=
+  match o, x with
+  | Ok (a, b), BMsgs a' b' => String.eqb a a' && String.eqb b b'
+  | Crash c, BExc c' => String.eqb c c'
+  | _, _ => false
+  end.
+Definition bidx_where (l : list (desc * bout)) : list nat :=
   map fst (filter (fun ic =>
-     negb (match run_pair (fun _ : bool => validate (fst (snd ic))) with
-           | Ok (a, b) => String.eqb a (fst (snd (snd ic))) && String.eqb b (snd (snd (snd ic)))
-           | _ => false
-           end)) (combine (seq 0 (length l)) l)).
+     negb (bcmp (run_entry (fun _ : bool => validate (fst (snd ic))) (fst (snd ic))) (snd (snd ic))))
+     (combine (seq 0 (length l)) l)).
 
 (** ** the typed game of Model/Game.v (instance Q) of a description *)
 Definition q_of (v : pyval) : option Q :=
